@@ -211,9 +211,13 @@ class Engine:
                     if spec.cofactor is not None:
                         I.cof = params[spec.cofactor].term
                 I.loop_mode = bool(spec is not None and getattr(spec, 'loop_mode', False))
+                I.top_params = params
                 try:
                     I.top = True
                     res = I.run_body(th, params)
+                    for ev in I.events:
+                        if ev[0] == 'fold_induction' and not (isinstance(res, VBdd) and I.W.rep(res.term) == I.W.rep(ev[1])):
+                            raise Undecidable('a fold over a list parameter was given its meaning by induction, but it is not what the function returns', ev[2])
                 except Diverge as d:
                     res = d
                 except LoopContinue:
